@@ -106,6 +106,7 @@ func drawConfig(r *rand.Rand, ps *PropSpec) world.Config {
 	cfg.NameChange = r.Intn(2) == 0
 	cfg.FIFO = r.Intn(2) == 0
 	cfg.PreHistory = r.Intn(4) == 0
+	cfg.LateSchedule = r.Intn(5) == 0
 	switch x := r.Intn(20); {
 	case x < 3:
 		cfg.NumDNS = -1
